@@ -23,6 +23,7 @@ package c02
 
 import (
 	"bytes"
+	"expvar"
 	"fmt"
 	"net/http"
 	"os"
@@ -33,6 +34,7 @@ import (
 	imodels "github.com/influxdata/influxdb/models"
 	"github.com/influxdata/kapacitor"
 	"github.com/influxdata/kapacitor/edge"
+	kexpvar "github.com/influxdata/kapacitor/expvar"
 	"github.com/influxdata/kapacitor/server/vars"
 
 	"verifharness/kit"
@@ -117,6 +119,11 @@ func parsePoint(tok string) (*point, error) {
 	host, err := kit.Unesc(f[4])
 	if err != nil {
 		return nil, err
+	}
+	if name == "" {
+		// influxdb's models.Point keeps name and tags in one key (`name,tag=value`); with an empty name the tags
+		// cannot be read back (a limitation of that library, not of kapacitor): such points carry no tags here
+		host = ""
 	}
 	p := &point{id: id, name: name, v: v, host: host}
 	p.pass = passOf(p)
@@ -243,6 +250,25 @@ func selects(f *fromDef, db, rp string, p *point) bool {
 
 const tmID = "verif" // kit.NewTM's TaskMaster id (tag `task_master` of the ingress statistics)
 
+// A TaskMaster never unpublishes its ingress statistics (and tasks that were never started keep their node
+// statistics), so the process-wide statistics map would grow with every case and make GetStatsData slow. The
+// harness removes what a case published once its TaskMaster is closed (statistics only, nothing reads them).
+func statKeys() map[string]bool {
+	keys := map[string]bool{}
+	if m, ok := expvar.Get(vars.Product).(*kexpvar.Map); ok && m != nil {
+		m.Do(func(kv expvar.KeyValue) { keys[kv.Key] = true })
+	}
+	return keys
+}
+
+func dropStatsExcept(keep map[string]bool) {
+	for k := range statKeys() {
+		if !keep[k] {
+			vars.DeleteStatistic(k)
+		}
+	}
+}
+
 func ingressSum() int64 {
 	data, err := vars.GetStatsData()
 	if err != nil {
@@ -292,6 +318,10 @@ func sortStrings(a []string) {
 	}
 }
 
+// once a wait has timed out (points were lost: the case will be judged SPECFAIL), later waits are kept short so
+// that a broken implementation is reported quickly instead of running into the harness time-out
+var shortWaits bool
+
 type runner struct {
 	tm        *kit.TM
 	http      bool
@@ -304,16 +334,61 @@ type runner struct {
 	base      int64
 	timeouts  int
 	waitLimit time.Duration
+	hung      string // set when a call into the real code did not return (the process must then exit)
+}
+
+// call runs one call into the real code under a watchdog: a TaskMaster call that blocks for ever (e.g. StopTask
+// waiting for an edge nobody closes) must end the case with an observation, not hang the harness.
+func (r *runner) call(what string, f func() error) (error, bool) {
+	if r.hung != "" {
+		return nil, true
+	}
+	done := make(chan error, 1)
+	pan := make(chan interface{}, 1)
+	go func() {
+		defer func() {
+			if rec := recover(); rec != nil {
+				pan <- rec
+			}
+		}()
+		done <- f()
+	}()
+	select {
+	case err := <-done:
+		return err, false
+	case rec := <-pan:
+		panic(rec)
+	case <-time.After(hangLimit):
+		r.hung = what
+		return nil, true
+	}
+}
+
+var hangLimit = 10 * time.Second
+
+func (r *runner) limit() time.Duration {
+	if shortWaits || r.timeouts > 0 {
+		return 150 * time.Millisecond
+	}
+	return r.waitLimit
+}
+
+func (r *runner) timedOut() {
+	r.timeouts++
+	shortWaits = true
 }
 
 func (r *runner) waitForked() {
-	deadline := time.Now().Add(r.waitLimit)
+	if r.hung != "" {
+		return
+	}
+	deadline := time.Now().Add(r.limit())
 	for i := 0; ; i++ {
 		if ingressSum()-r.base >= r.written {
 			return
 		}
 		if time.Now().After(deadline) {
-			r.timeouts++
+			r.timedOut()
 			return
 		}
 		if i < 20 {
@@ -328,7 +403,10 @@ func (r *runner) waitForked() {
 // effort, matters only when the implementation delivers MORE than expected) until the tasks' edges are balanced
 // and two consecutive counter snapshots agree.
 func (r *runner) waitSinks(ids map[string]bool, settle bool) {
-	deadline := time.Now().Add(r.waitLimit)
+	if r.hung != "" {
+		return
+	}
+	deadline := time.Now().Add(r.limit())
 	for id := range ids {
 		d := r.running[id]
 		if d == nil {
@@ -336,13 +414,29 @@ func (r *runner) waitSinks(ids map[string]bool, settle bool) {
 		}
 		for i := range d.froms {
 			k := sinkKey(id, i)
+			// A shortfall is certain long before the hard limit when everything has been forked and the task's
+			// edges are balanced and have not moved for 400 ms: nothing more can arrive.
+			prevFP, stableSince, lastSnap := "", time.Time{}, time.Time{}
 			for n := 0; ; n++ {
 				if len(r.tm.Rec.Get(k)) >= r.expected[k] {
 					break
 				}
-				if time.Now().After(deadline) {
-					r.timeouts++
+				now := time.Now()
+				if now.After(deadline) {
+					r.timedOut()
 					break
+				}
+				if n >= 20 && now.Sub(lastSnap) > 20*time.Millisecond {
+					lastSnap = now
+					ok, fp := edgeSnapshot(map[string]bool{id: true})
+					if ok && fp == prevFP {
+						if now.Sub(stableSince) > 400*time.Millisecond {
+							r.timedOut()
+							break
+						}
+					} else {
+						prevFP, stableSince = fp, now
+					}
 				}
 				if n < 20 {
 					time.Sleep(50 * time.Microsecond)
@@ -380,7 +474,11 @@ func (r *runner) start(d *taskDef) string {
 		// restart in place: the old incarnation's sinks share the recording keys, let them finish first
 		r.waitSinks(map[string]bool{d.id: true}, true)
 	}
-	if _, err := r.tm.TM.StartTask(task); err != nil {
+	err, hung := r.call("StartTask "+d.id, func() error { _, e := r.tm.TM.StartTask(task); return e })
+	if hung {
+		return "hang"
+	}
+	if err != nil {
 		if len(dbrps) == 0 {
 			return "err:nodbrp"
 		}
@@ -399,11 +497,14 @@ func (r *runner) start(d *taskDef) string {
 func (r *runner) stop(id string, del bool) string {
 	r.waitForked()
 	r.waitSinks(map[string]bool{id: true}, true)
-	var err error
-	if del {
-		err = r.tm.TM.DeleteTask(id)
-	} else {
-		err = r.tm.TM.StopTask(id)
+	err, hung := r.call("StopTask/DeleteTask "+id, func() error {
+		if del {
+			return r.tm.TM.DeleteTask(id)
+		}
+		return r.tm.TM.StopTask(id)
+	})
+	if hung {
+		return "hang"
 	}
 	delete(r.running, id)
 	if err != nil {
@@ -431,7 +532,11 @@ func (r *runner) write(db, rp string, pts []*point) string {
 			fmt.Fprintf(&body, "%s,host=%s id=%di,v=%di %d\n", lpEsc(p.name, true), lpEsc(p.host, false), p.id, p.v, baseTime.UnixNano()+p.id)
 		}
 		u := r.tm.HTTPD.URL() + "/kapacitor/v1/write?db=" + urlEsc(db) + "&rp=" + urlEsc(rp)
-		resp, err := http.Post(u, "text/plain", &body)
+		var resp *http.Response
+		err, hung := r.call("POST /write", func() error { var e error; resp, e = http.Post(u, "text/plain", &body); return e })
+		if hung {
+			return "hang"
+		}
 		if err != nil {
 			return "err:http"
 		}
@@ -442,14 +547,22 @@ func (r *runner) write(db, rp string, pts []*point) string {
 	} else {
 		var mps []imodels.Point
 		for _, p := range pts {
-			mp, err := imodels.NewPoint(p.name, imodels.NewTags(map[string]string{"host": p.host}),
+			tags := map[string]string{}
+			if p.host != "" {
+				tags["host"] = p.host
+			}
+			mp, err := imodels.NewPoint(p.name, imodels.NewTags(tags),
 				imodels.Fields{"id": p.id, "v": p.v}, baseTime.Add(time.Duration(p.id)))
 			if err != nil {
 				return "err:point"
 			}
 			mps = append(mps, mp)
 		}
-		if err := r.tm.TM.WritePoints(db, rp, imodels.ConsistencyLevelAll, mps); err != nil {
+		err, hung := r.call("WritePoints", func() error { return r.tm.TM.WritePoints(db, rp, imodels.ConsistencyLevelAll, mps) })
+		if hung {
+			return "hang"
+		}
+		if err != nil {
 			return "err:write"
 		}
 	}
@@ -514,7 +627,7 @@ func idsOf(msgs []edge.Message) string {
 
 // execCase runs the op lines of one case and returns them with observations. `final`/`quiesce` lines are
 // (re)generated from what was started, so a shrunk or hand-written case needs none.
-func execCase(ops []string) (out []string) {
+func execCase(ops []string) (out []string, hung string) {
 	r := &runner{running: map[string]*taskDef{}, everDef: map[string]int{}, expected: map[string]int{}, waitLimit: 8 * time.Second}
 	if s := os.Getenv("VERIF_C02_WAIT_MS"); s != "" {
 		if v, err := strconv.Atoi(s); err == nil {
@@ -537,11 +650,16 @@ func execCase(ops []string) (out []string) {
 		}
 		lines = append(lines, t)
 	}
+	statsBefore := statKeys()
 	tm, err := kit.NewTM(kit.TMOpts{NoOpen: true})
 	if err != nil {
 		fmt.Fprintln(os.Stderr, "c02: cannot build TaskMaster:", err)
 		os.Exit(4)
 	}
+	if len(statsBefore) == 0 {
+		statsBefore = statKeys() // first case: keep what the shared services published
+	}
+	defer dropStatsExcept(statsBefore)
 	r.tm = tm
 	tm.TM.DefaultRetentionPolicy = r.defRP
 	if err := tm.TM.Open(); err != nil {
@@ -562,6 +680,9 @@ func execCase(ops []string) (out []string) {
 	}
 	for _, t := range lines {
 		line := strings.Join(t, " ")
+		if r.hung != "" {
+			break
+		}
 		switch t[0] {
 		case "cfg":
 			out = append(out, line)
@@ -618,7 +739,9 @@ func execCase(ops []string) (out []string) {
 		all[id] = true
 	}
 	r.waitSinks(all, true)
-	tm.Close()
+	if _, hung := r.call("TaskMaster.Close", func() error { tm.Close(); return nil }); hung {
+		out = append(out, "close => hang")
+	}
 	if r.http {
 		tm.HTTPD.Handler.PointsWriter = nil
 	}
@@ -628,7 +751,7 @@ func execCase(ops []string) (out []string) {
 		}
 	}
 	out = append(out, fmt.Sprintf("quiesce => %d", r.timeouts))
-	return out
+	return out, r.hung
 }
 
 func emit(out *kit.Out, id string, lines []string) {
@@ -659,7 +782,12 @@ func Run(args []string) int {
 			case len(t) == 2 && t[0] == "case":
 				id, cur = t[1], nil
 			case len(t) == 1 && t[0] == "end":
-				emit(out, id, execCase(cur))
+				lines, hung := execCase(cur)
+				emit(out, id, lines)
+				if hung != "" {
+					fmt.Fprintf(os.Stderr, "c02: %s did not return within %v in case %s: the real code hangs\n", hung, hangLimit, id)
+					return 3
+				}
 			default:
 				cur = append(cur, l)
 			}
@@ -668,7 +796,12 @@ func Run(args []string) int {
 	}
 	r := kit.NewRand(f.Seed)
 	for i := 0; i < f.N; i++ {
-		emit(out, fmt.Sprintf("g%d", i), execCase(genCase(r.Fork(), i, f.Tier)))
+		lines, hung := execCase(genCase(r.Fork(), i, f.Tier))
+		emit(out, fmt.Sprintf("g%d", i), lines)
+		if hung != "" {
+			fmt.Fprintf(os.Stderr, "c02: %s did not return within %v in case g%d: the real code hangs\n", hung, hangLimit, i)
+			return 3
+		}
 	}
 	return 0
 }
